@@ -172,6 +172,7 @@ func VerifC17Revocation() {
 	for j := 0; j <= N; j++ {
 		t := w.tokens[j]
 		ids := t.RevocationIds()
+		vObserve("nids", len(ids))
 		vAssert(len(ids) == j+1, "C17.one-per-block")
 		if len(ids) != j+1 {
 			return
